@@ -108,6 +108,34 @@ def wide_abstract(rng, n):
     return dict(L=K, time=time, flags=flags, edges=edges, sites=[], muts=[], _wide=1, _nopad=1)
 
 
+def detour_abstract(r):
+    """a lineage that reaches the same ancestor through different children on different stretches of the genome, next to lineages that stay
+    where they are: sample 0 sits below A left of a breakpoint and below X right of it (or the other way round), the other samples below A, X
+    or P throughout; A and X below P (A perhaps only where it has a child), P perhaps below a root; node ids then in arbitrary order"""
+    K = r.randint(2, 4)
+    b = r.randint(1, K - 1)
+    m = r.randint(2, 4)
+    A, X, P = m, m + 1, m + 2
+    time = [0] * m + [1, 1, 2]
+    flags = [1] * m + [r.choice([0, 0, 1]), 0, r.choice([0, 0, 1])]
+    first, second = (A, X) if r.random() < 0.5 else (X, A)
+    edges = [dict(left=0, right=b, parent=first, child=0), dict(left=b, right=K, parent=second, child=0)]
+    for c in range(1, m):
+        edges.append(dict(left=0, right=K, parent=r.choice([A, X, X, P]), child=c))
+    for mid in (A, X):
+        spans = [(e["left"], e["right"]) for e in edges if e["parent"] == mid]
+        if spans:
+            lo, hi = (0, K) if r.random() < 0.6 else (min(s_[0] for s_ in spans), max(s_[1] for s_ in spans))
+            edges.append(dict(left=lo, right=hi, parent=P, child=mid))
+    if r.random() < 0.4:
+        time.append(3)
+        flags.append(0)
+        edges.append(dict(left=0, right=K, parent=P + 1, child=P))
+    edges.sort(key=lambda e: (time[e["parent"]], e["parent"], e["child"], e["left"]))
+    a = dict(L=K, time=time, flags=flags, edges=edges, sites=[], muts=[])
+    return gen.permute_nodes(a, r) if r.random() < 0.7 else a
+
+
 def run():
     chk = Check("C19")
     rng = random.Random(SEED * 7919 + 19)
@@ -122,6 +150,9 @@ def run():
         if i % 3 == 2:       # node ids in no particular order (ids carry no meaning: parents with smaller ids than children, samples anywhere)
             a = gen.permute_nodes(a, random.Random(SEED * 1000003 + i))
         cases.append(drive(a, rng))
+    r2 = random.Random(SEED * 1000003 + 19)          # a generator of its own: the draws above stay as they were
+    for i in range(200 if QUICK else 5000):
+        cases.append(drive(detour_abstract(r2), r2))
     for n in ([65, 130] if QUICK else [63, 64, 65, 66, 127, 128, 129, 130, 200, 257]):
         cases.append(drive(wide_abstract(rng, n), rng))
     for c in [c for c in cases if "error" in c]:
